@@ -175,7 +175,7 @@ func (hs *HTTPServer) configureHTTPS() error {
 	if hs.config.CertFile == "" && hs.config.KeyFile == "" {
 		hs.log.Info("no TLS certificate provided, using self-signed certificate")
 	} else {
-		hs.log.Debug("loading TLS certificate from %s and %s", hs.config.CertFile, hs.config.KeyFile)
+		hs.log.Debug("loading TLS certificate from %s and %s", redactFileOrBase64(hs.config.CertFile), redactFileOrBase64(hs.config.KeyFile))
 	}
 
 	hs.srv.TLSConfig = httpsTLSConfigTemplate()
@@ -188,7 +188,7 @@ func (hs *HTTPServer) configureHTTP2() error {
 	if hs.config.CertFile == "" && hs.config.KeyFile == "" {
 		hs.log.Info("no TLS certificate provided, using self-signed certificate")
 	} else {
-		hs.log.Debug("loading TLS certificate", "cert", hs.config.CertFile, "key", hs.config.KeyFile)
+		hs.log.Debug("loading TLS certificate", "cert", redactFileOrBase64(hs.config.CertFile), "key", redactFileOrBase64(hs.config.KeyFile))
 	}
 
 	hs.srv.TLSConfig = h2TLSConfigTemplate()
